@@ -205,7 +205,8 @@ class _Dim:
     def __ne__(s, o):
         return SBool(z3.Not(s.sq))
 
-    __hash__ = None
+    def __hash__(s):
+        return 0  # dimensions may be collected in sets / dict keys: equality stays symbolic
 
 
 class _Factor:
@@ -446,8 +447,68 @@ def case_function(T, fname, pattern_index, two_op_limit=None):
             T.check(label, ok, why)
 
 
+class _Applied(Exception):
+    pass
+
+
+def case_auto_redispatch(T, fname, n, annotation):
+    """the automatic rules choose an algorithm object from the operator's size and annotations and dispatch again: that second resolution must
+    succeed as well.  The real function is called on a rule-less n x n operator whose products raise a marker: the call may return (lazy result),
+    reach the operator (a rule was selected and started to work) or be refused by the selected rule -- but must not end in a lookup error."""
+    import importlib
+    import types
+    Lm = cola.linalg
+    L = types.SimpleNamespace(svd=importlib.import_module("cola.linalg.svd.svd").svd,
+                              **{k: getattr(Lm, k) for k in ("inv", "solve", "pinv", "eig", "eigmax", "eigmin", "slogdet", "logdet", "exp", "log", "sqrt",
+                                                            "isqrt", "pow", "apply_unary", "diag", "trace")})
+
+    def never(X):
+        raise _Applied()
+    A = cola.ops.LinearOperator(np.dtype('float64'), (n, n), matmat=never)
+    if annotation != "none":
+        A = getattr(cola, annotation)(A)
+    Auto = cola.linalg.Auto
+    calls = {
+        "inv": [lambda: L.inv(A) @ np.ones(n), lambda: L.inv(A, Auto()) @ np.ones(n), lambda: L.inv(A, Auto(tol=1e-3, max_iters=3)) @ np.ones(n)],
+        "solve": [lambda: L.solve(A, np.ones(n)), lambda: L.solve(A, np.ones((n, 2)), Auto(max_iters=2))],
+        "pinv": [lambda: L.pinv(A) @ np.ones(n), lambda: L.pinv(A, Auto(max_iters=2)) @ np.ones(n)],
+        "svd": [lambda: L.svd(A, 2, "LM"), lambda: L.svd(A, 2, "LM", Auto()), lambda: L.svd(A, 1, "LM", Auto(max_iters=3))],
+        "eig": [lambda: L.eig(A, 2, "LM"), lambda: L.eig(A, 1, "LM", Auto()), lambda: L.eig(A, 2, "SM", Auto(max_iters=3)), lambda: L.eigmax(A), lambda: L.eigmin(A)],
+        "slogdet": [lambda: L.slogdet(A), lambda: L.logdet(A), lambda: L.slogdet(A, Auto(max_iters=3), Auto())],
+        "unary": [lambda: L.exp(A) @ np.ones(n), lambda: L.log(A, Auto()) @ np.ones(n), lambda: L.sqrt(A) @ np.ones(n), lambda: L.isqrt(A) @ np.ones(n),
+                  lambda: L.pow(A, 0.5) @ np.ones(n), lambda: L.pow(A, 2.5, Auto(max_iters=3)) @ np.ones(n), lambda: L.apply_unary(np.exp, A) @ np.ones(n)],
+        "diag": [lambda: L.diag(A), lambda: L.diag(A, 1, Auto()), lambda: L.trace(A), lambda: L.trace(A, Auto(tol=1e-2))],
+    }[fname]
+    from symx import shim
+    was = shim.MODE.get("symbolic")
+    shim.symbolic(False)  # plain arrays: nothing here depends on values, only on which rule is selected
+    try:
+        _auto_calls(T, fname, n, annotation, calls)
+    finally:
+        shim.symbolic(was)
+
+
+def _auto_calls(T, fname, n, annotation, calls):
+    for i, call in enumerate(calls):
+        tag = f"{fname}[{i}] on a {'large' if n * n > 1e6 else 'small'} {annotation} operator"
+        try:
+            call()
+            ok, why = True, ""
+        except _Applied:
+            ok, why = True, ""
+        except (AmbiguousLookupError, NotFoundLookupError) as e:
+            ok, why = False, f"{type(e).__name__}: " + (str(e).splitlines() or [""])[0][:160]
+        except Exception:
+            ok, why = True, ""  # refused / failed inside the selected rule: outside this property
+        T.check(tag + ": second-level resolution succeeds", ok, why)
+
+
 def cases(tier, seed):
     out = []
+    for fname in ("inv", "solve", "pinv", "svd", "eig", "slogdet", "unary", "diag"):
+        for n in (6, 1001):
+            for an in ("none", "PSD", "SelfAdjoint"):
+                out.append((f"auto-redispatch:{fname}:n{n}:{an}", case_auto_redispatch, dict(fname=fname, n=n, annotation=an)))
     for fname, pats in _patterns().items():
         for i, p in enumerate(pats):
             out.append((f"{fname}#{i}", case_function, dict(fname=fname, pattern_index=i)))
